@@ -5,13 +5,13 @@ import "gosym/sym"
 func init() {
 	Register(&Spec{
 		ID:    "C06",
-		Level: "model_checking",
+		Level: "model_checking", CrossSolver: true,
 		Explanation: "bounded symbolic execution of the loaders on ICC-carrying skeletons: JPEG with n APP2 ICC_PROFILE segments whose sequence numbers and totals are symbolic bytes (all orders, duplicates, gaps and inconsistent totals within the stated ranges are models of one harness), payload bytes symbolic, frame header before/between/after, optional interleaved COM segments; WebP VP8X with symbolic flags and an ICCP chunk of several sizes incl. 4095/4096/4097 symbolic bytes; PNG iCCP with symbolic name and compressed bytes straddling the 4096-byte buffer, inflate stubbed. The returned bytes are asserted equal (bit-vector equality per byte) to the specification-side assembly, damaged sets must give (nil, error) with metadata, absence (nil, nil)",
 		Bounds: func(tier string) map[string]interface{} {
 			return map[string]interface{}{
-				"jpeg":    "n in 1..3 chunks (thorough 4), payload of chunk i = i+1 symbolic bytes, seq in [0,n+1], total in [n-1,n+1] (n=3: one common symbolic total), SOF at every position, with/without COM segments",
-				"webp":    "ICCP sizes {0,1,7,4097} (thorough adds 4095,4096), flags byte symbolic",
-				"png":     "(name length, compressed length) in {(1,8),(2,5),(79,8),(1,4060)} (thorough adds (1,4070),(3,5000)), 0..1 ancillary chunks before iCCP; unterminated 80-byte name",
+				"jpeg":      "n in 1..3 chunks (thorough 4), payload of chunk i = i+1 symbolic bytes, seq in [0,n+1], total in [n-1,n+1] (n=3: one common symbolic total), SOF at every position, with/without COM segments",
+				"webp":      "ICCP sizes {0,1,7,4097} (thorough adds 4095,4096), flags byte symbolic",
+				"png":       "(name length, compressed length) in {(1,8),(2,5),(79,8),(1,4060)} (thorough adds (1,4070),(3,5000)), 0..1 ancillary chunks before iCCP; unterminated 80-byte name",
 				"png_large": "inflate output of 65537 and 1 MiB+1 bytes (thorough: 3 MiB), concrete content", "inflate": "stubbed: asserted are the bytes handed to inflate and that its output is returned untouched; 'any deflate level' is outside the claim",
 				"outside": "more than 4 symbolically ordered chunks, 65519-byte payloads and 255 chunks, multi-MiB profiles",
 			}
